@@ -123,9 +123,7 @@ PURE_CONST = dict(Nodes=R('{"n1"}'), Lanes=R('{"l1"}'), Exists=R('{}'), Dls=R('{
 def pure_enumerate(wd):
     c = core.cfg(next_="PureNext", constants=PURE_CONST,
                  invariants=["RoundTripLaw", "WriterQuotesNonIdentifiers", "PureDump"])
-    r = core.run_tlc("MC_Remote", c, os.path.join(wd, "pure"), workers=1, timeout=300)
-    must_ok(r, "envelope model")
-    return r
+    return core.run_tlc("MC_Remote", c, os.path.join(wd, "pure"), workers=1, timeout=300)
 
 
 def canon_env(m):
@@ -182,8 +180,8 @@ def pure_verdict(msg, res):
     return None
 
 
-def pure_part(tier, out, wd, rng, stats):
-    r = pure_enumerate(wd)
+def pure_part(tier, out, wd, rng, stats, r):
+    must_ok(r, "envelope model")
     envs = r.tagged["ENV"]
     per_env = 3 if tier == "quick" else 24
     cases = pure_cases(envs, per_env, rng)
@@ -221,7 +219,6 @@ def pure_part(tier, out, wd, rng, stats):
                          distinct_concrete=len(distinct), model_drift=drift, tlc_law_instances=2 * len(envs))
     core.log("[C11] pure: %d abstract envelopes (TLC), %d concrete round trips, drift=%d, violations=%d" % (
         len(envs), len(cases) + len(nf), drift, bad))
-    return r
 
 
 # ----------------------------------------------------------------------------------------- multiplexer
@@ -232,7 +229,8 @@ MR_INPUT = {"k", "s"}
 
 def mr_b3_configs(tier):
     if tier == "quick":
-        return [dict(BucketSize=2, Pad=0, NStreams=3, MaxItems=1), dict(BucketSize=2, Pad=1, NStreams=2, MaxItems=2)]
+        return [dict(BucketSize=2, Pad=0, NStreams=2, MaxItems=2), dict(BucketSize=2, Pad=1, NStreams=2, MaxItems=2),
+                dict(BucketSize=1, Pad=1, NStreams=2, MaxItems=2)]
     return [dict(BucketSize=2, Pad=0, NStreams=3, MaxItems=2), dict(BucketSize=2, Pad=1, NStreams=3, MaxItems=2),
             dict(BucketSize=1, Pad=0, NStreams=3, MaxItems=2), dict(BucketSize=3, Pad=2, NStreams=2, MaxItems=3)]
 
@@ -298,7 +296,7 @@ def validate_many(module, histories, wd, constants=None, invariants=(), limit_fa
             break
         runs += 1
         r = core.trace_validate(module, flat, os.path.join(wd, "tv_%s_%d" % (module, runs)), constants=constants,
-                                invariants=invariants, timeout=900, xmx="3g")
+                                invariants=invariants, timeout=int(os.environ.get("VERIF_TV_TIMEOUT", "900")), xmx="3g")
         if r.get("status", "").startswith("invariant"):
             raise core.ToolError("trace spec %s: state invariant failed during validation: %s" % (module, r))
         if r["accepted"]:
@@ -312,13 +310,13 @@ def validate_many(module, histories, wd, constants=None, invariants=(), limit_fa
     return total, fails
 
 
-def mux_part(tier, out, wd, rng, stats, cov):
+def mux_jobs(tier, wd):
     jobs = []
     for ci, k in enumerate(mr_b3_configs(tier)):
         def b3(k=k, ci=ci):
             c = core.cfg(constants=k, invariants=MR_INV + ["NoStarvation"])
             return core.run_tlc("MC_MultiReader", c, os.path.join(wd, "mr_b3_%d" % ci), workers=1, timeout=1500)
-        jobs.append((("b3", ci), b3))
+        jobs.append((("mr_b3", ci), b3))
     gcfgs = mr_graph_configs(tier)
     for ci, k in enumerate(gcfgs):
         def gr(k=k, ci=ci):
@@ -328,20 +326,25 @@ def mux_part(tier, out, wd, rng, stats, cov):
                 return core.run_tlc("MC_MultiReader", c, os.path.join(wd, "mr_g_%d" % ci), workers=1, timeout=1500,
                                     simulate=k["_sim"], extra=["-depth", "60", "-seed", str(core.seed() + ci)])
             return core.run_tlc("MC_MultiReader", c, os.path.join(wd, "mr_g_%d" % ci), workers=1, timeout=1500)
-        jobs.append((("g", ci), gr))
-    res = tlc_jobs(jobs, par=4)
+        jobs.append((("mr_g", ci), gr))
+    return jobs
+
+
+def mux_part(tier, out, wd, rng, stats, cov, res):
+    gcfgs = mr_graph_configs(tier)
     st = dict(states=0, transitions=0, b3_states=0, replayed_paths=0, replayed_calls=0, conform=0, drift=0,
               rejected=0, p_events=0, sources_max=0)
-    for (kind, ci), r in sorted(res.items()):
+    for (kind, ci), r in sorted((k, v) for k, v in res.items() if k[0].startswith("mr_")):
+        core.log("[C11]   tlc MultiReader %s%d: %d distinct states, %.1fs" % (kind, ci, r.distinct, r.wall))
         must_ok(r, "MultiReader %s %d" % (kind, ci))
         cov_merge(cov, r, "MultiReader")
-        if kind == "b3":
+        if kind == "mr_b3":
             st["b3_states"] += r.distinct
             st["states"] += r.distinct
             st["transitions"] += max(r.generated - 1, 0)
     histories, hist_cases = [], []
     for ci, k in enumerate(gcfgs):
-        r = res[("g", ci)]
+        r = res[("mr_g", ci)]
         if "_sim" in k:
             paths = behaviours_from_edges(r.tagged["EDGE"])
             st["transitions"] += len(r.tagged["EDGE"])
@@ -373,7 +376,10 @@ def mux_part(tier, out, wd, rng, stats, cov):
         if ci == 0 and cases:
             out.sample({"multireader_calls_with_expected_results": cases[len(cases) // 2]["acts"][:10]})
         core.log("[C11] mux cfg %s: %d paths replayed" % (k, len(cases)))
+    import time as _t
+    _t0 = _t.time()
     n_ev, fails = validate_many("Trace_MultiReader", histories, wd)
+    core.log("[C11]   tlc Trace_MultiReader: %d events, %.1fs" % (n_ev, _t.time() - _t0))
     st["p_events"] = n_ev
     failed_idx = set()
     for idx, at, ev, _kf in fails:
@@ -461,7 +467,11 @@ INVALID_FRAMES = ["@foo(node:a,lane:b)", "not an envelope", "@event(node:a)", "@
 AUTH_FRAMES = ["@auth", "@deauth", "@auth{key:1}", "@deauth()"]
 
 
-def concretise(script, rng):
+def wide_bodies(n_dl, per):
+    return ["w%d_%d" % (d, j) for d in range(1, n_dl + 1) for j in range(1, per + 1)]
+
+
+def concretise(script, rng, extra_bodies=()):
     """abstract ids -> pool strings (injective per script); returns (concrete acts, maps)."""
     def pick(n, pool_by_class, avoid=()):
         chosen = []
@@ -479,6 +489,8 @@ def concretise(script, rng):
     lanes = dict(zip(["l1", "l2"], pick(2, STR_POOL)))
     bodies = dict(zip(["b1", "b2"], pick(2, {k: v for k, v in BODY_POOL.items() if k != "empty"}, avoid=("@nodeNotFound",))))
     bodies[""] = ""
+    for j, b in enumerate(extra_bodies):
+        bodies[b] = rng.choice(["{seq:%d}", "@m(%d)", "%d", "\"m %d\""]) % j
 
     def cmsg(m):
         if m["kind"] in ("invalid", "auth"):
@@ -517,6 +529,8 @@ def abstract_log(log, maps):
         return {"kind": m["kind"], "node": back(inv_n, m["node"]), "lane": back(inv_l, m["lane"]), "body": back(inv_b, m["body"])}
     ev = [{"k": "reset"}]
     for e in log:
+        if e["k"] == "skip":
+            continue            # an environment move that was not enabled in this run
         e = {k: v for k, v in e.items() if k not in ("text", "reason", "err")}
         if "msg" in e:
             e["msg"] = amsg(e["msg"])
@@ -553,9 +567,9 @@ def wide_script(n_dl, per, rng):
     seq = {}
     for d in order:
         seq[d] = seq.get(d, 0) + 1
-        kind = ["command", "link", "sync", "unlink"][(d + seq[d]) % 4]
-        acts.append({"k": "dl_send", "d": d, "msg": {"kind": kind, "node": "n1", "lane": "l1" if seq[d] % 2 else "l2",
-                                                        "body": ("b1" if seq[d] % 2 else "b2") if kind == "command" else ""}})
+        # every message is unique (its body names source and position), so the trace has one reading
+        acts.append({"k": "dl_send", "d": d, "msg": {"kind": "command", "node": "n1", "lane": "l1" if seq[d] % 2 else "l2",
+                                                        "body": "w%d_%d" % (d, seq[d])}})
         if rng.random() < 0.05:
             acts.append({"k": "settle"})
     acts.append({"k": "peer_send", "msg": {"kind": "event", "node": "n1", "lane": "l1", "body": "b1"}})
@@ -566,7 +580,7 @@ def wide_script(n_dl, per, rng):
     return acts
 
 
-def routing_part(tier, out, wd, rng, stats, cov):
+def routing_jobs(tier, wd):
     jobs = []
     for name, k, live in rt_b3_configs(tier):
         def b3(name=name, k=k, live=live):
@@ -574,7 +588,7 @@ def routing_part(tier, out, wd, rng, stats, cov):
                          properties=["RoutingProps"] + (["AllLeave", "AllRouted"] if live else []),
                          constraints=["Bound"], action_constraints=RT_AC)
             return core.run_tlc("MC_Remote", c, os.path.join(wd, "rt_b3_" + name), workers=1, timeout=1700)
-        jobs.append((("b3", name), b3))
+        jobs.append((("rt_b3", name), b3))
     n_sim = 60 if tier == "quick" else 1000
     for name, k in (("server", SIM_SERVER), ("client", SIM_CLIENT)):
         def sim(name=name, k=k):
@@ -583,19 +597,23 @@ def routing_part(tier, out, wd, rng, stats, cov):
             return core.run_tlc("MC_Remote", c, os.path.join(wd, "rt_sim_" + name), workers=1, timeout=1700,
                                 simulate="num=%d" % (n_sim if name == "server" else n_sim // 3),
                                 extra=["-depth", "45", "-seed", str(core.seed() + 17)])
-        jobs.append((("sim", name), sim))
-    res = tlc_jobs(jobs, par=4)
+        jobs.append((("rt_sim", name), sim))
+    return jobs
+
+
+def routing_part(tier, out, wd, rng, stats, cov, res):
     st = dict(b3_states=0, b3_transitions=0, scripts=0, script_actions=0, events=0, accepted=0, rejected=0,
               deliveries=0, wire_frames=0, finds=0, closed_runs=0)
-    for (kind, name), r in sorted(res.items()):
+    for (kind, name), r in sorted((k, v) for k, v in res.items() if k[0].startswith("rt_")):
+        core.log("[C11]   tlc Remote %s %s: %d distinct states, %.1fs" % (kind, name, r.distinct, r.wall))
         must_ok(r, "Remote %s %s" % (kind, name))
-        if kind == "b3":
+        if kind == "rt_b3":
             cov_merge(cov, r, "Remote")
             st["b3_states"] += r.distinct
             st["b3_transitions"] += max(r.generated - 1, 0)
     cases = []
     for name, k in (("server", SIM_SERVER), ("client", SIM_CLIENT)):
-        r = res[("sim", name)]
+        r = res[("rt_sim", name)]
         behs = behaviours_from_edges(r.tagged["EDGE"])
         st["b3_transitions"] += len(r.tagged["EDGE"])
         for j, s in enumerate(abstract_scripts(behs, rng)):
@@ -607,9 +625,9 @@ def routing_part(tier, out, wd, rng, stats, cov):
     wides = [(3, 3), (70, 2)] if tier == "quick" else [(3, 5), (70, 3), (130, 2)]
     for n_dl, per in wides:
         s = wide_script(n_dl, per, rng)
-        acts, maps = concretise(s, rng)
+        acts, maps = concretise(s, rng, wide_bodies(n_dl, per))
         cases.append({"id": "wide%d" % n_dl, "cfg": {"server": True, "exists": [], "max_inst": 2, "buf": 4096, "reg_buf": 8},
-                      "acts": acts, "maps": maps, "abstract": s, "group": "wide%d" % n_dl, "n_dl": n_dl})
+                      "acts": acts, "maps": maps, "abstract": s, "group": "wide%d" % n_dl, "n_dl": n_dl, "per": per})
     results = run_task_cases(cases, wd, "task")
     groups = {}
     for c, r in zip(cases, results):
@@ -628,7 +646,8 @@ def routing_part(tier, out, wd, rng, stats, cov):
     for g, items in groups.items():
         if g.startswith("wide"):
             n = items[0][0]["n_dl"]
-            const = dict(TRACE_CONST, Dls=R("1..%d" % n), Exists=R('{}'), ServerMode=True)
+            const = dict(TRACE_CONST, Dls=R("{%s}" % ", ".join(str(x) for x in range(1, n + 1))), Exists=R('{}'), ServerMode=True,
+                         Bodies=R("{%s}" % ", ".join('"%s"' % b for b in ["b1", "b2"] + wide_bodies(n, items[0][0]["per"]))))
         elif g == "server":
             const = dict(TRACE_CONST, Dls=R("{1,2,3}"), Exists=R('{"n1","n2"}'), ServerMode=True)
         else:
@@ -642,7 +661,7 @@ def routing_part(tier, out, wd, rng, stats, cov):
             c, r, h = items[idx]
             out.violation("routing: P (Trace_Remote) rejects the history recorded from the real RemoteTask at event %d: %s (after %s)" % (
                 at, json.dumps(ev, ensure_ascii=False), json.dumps(h[max(0, at - 3):at], ensure_ascii=False)[:600]),
-                {"component": "task", "case": {k: c[k] for k in ("id", "cfg", "acts", "maps", "group")}, "n_dl": c.get("n_dl"),
+                {"component": "task", "case": {k: c[k] for k in ("id", "cfg", "acts", "maps", "group")}, "n_dl": c.get("n_dl"), "per": c.get("per"),
                  "log": r["log"][:400]})
     if cases:
         c0 = cases[min(3, len(cases) - 1)]
@@ -664,9 +683,24 @@ def run(tier, out):
     for f in core.open_findings(PROP):
         out.notes.append("open finding listed: %s" % f["id"])
     stats, cov = {}, {}
-    pr = pure_part(tier, out, wd, rng, stats)
-    mux_part(tier, out, wd, rng, stats, cov)
-    routing_part(tier, out, wd, rng, stats, cov)
+    parts = os.environ.get("VERIF_C11_PARTS", "pure,mux,routing").split(",")     # development aid only
+    jobs = [(("pure", 0), lambda: pure_enumerate(wd))]
+    if "mux" in parts:
+        jobs += mux_jobs(tier, wd)
+    if "routing" in parts:
+        jobs += routing_jobs(tier, wd)
+    res = tlc_jobs(jobs, par=4)          # every job is a 1-worker TLC: at most 4 TLC workers at any time
+    pr = res[("pure", 0)]
+    pure_part(tier, out, wd, rng, stats, pr)
+    if "mux" in parts:
+        mux_part(tier, out, wd, rng, stats, cov, res)
+    if "routing" in parts:
+        routing_part(tier, out, wd, rng, stats, cov, res)
+    if len(parts) < 3:
+        core.log("[C11] partial run (%s): no evidence written" % parts)
+        for w, p_ in out.violations:
+            core.log("VIOLATION " + w[:600] + " " + p_)
+        raise core.ToolError("partial run requested with VERIF_C11_PARTS")
     never = sorted(a for a, (d, t) in cov.items() if t == 0 and a.split(".")[1] not in ("Bound", "KindFilter", "DlScript", "Urgent"))
     mux, rt, pu = stats["mux"], stats["routing"], stats["pure"]
     out.add(states=mux["states"] + rt["b3_states"] + pr.distinct,
@@ -734,7 +768,8 @@ def replay(path, out):
         h = abstract_log(res["log"], case["maps"])
         g = case["group"]
         if g.startswith("wide"):
-            const = dict(TRACE_CONST, Dls=R("1..%d" % obj["n_dl"]), Exists=R('{}'), ServerMode=True)
+            const = dict(TRACE_CONST, Dls=R("{%s}" % ", ".join(str(x) for x in range(1, obj["n_dl"] + 1))), Exists=R('{}'), ServerMode=True,
+                         Bodies=R("{%s}" % ", ".join('"%s"' % b for b in ["b1", "b2"] + wide_bodies(obj["n_dl"], obj["per"]))))
         elif g == "server":
             const = dict(TRACE_CONST, Dls=R("{1,2,3}"), Exists=R('{"n1","n2"}'), ServerMode=True)
         else:
